@@ -123,6 +123,8 @@ fn finish<M: Monitor>(m: &M, a: &Args, rep: Report, wall: f64, floor_applies: bo
     let mut j = rep.to_json();
     j["maxima"]["max-provider-steps-any-solve"] = json!(rvmon::run::MAX_STEPS_SEEN.load(std::sync::atomic::Ordering::Relaxed));
     j["maxima"]["provider-step-budget"] = json!(rvmon::run::DEFAULT_BUDGET);
+    j["maxima"]["max-solver-loop-iterations-any-solve"] = json!(rvmon::run::MAX_LOOP_ITERATIONS_SEEN.load(std::sync::atomic::Ordering::Relaxed));
+    j["maxima"]["solver-loop-iteration-budget"] = json!(rvmon::run::LOOP_BUDGET);
     j["property_id"] = json!(id);
     j["label"] = json!(a.label);
     j["tier"] = json!(a.tier.name());
